@@ -159,6 +159,18 @@ def run(tier):
                         printed = True
                     if "fmt::rt::Argument" in rp and any("rror" in cr.types[g]["s"] for g in tt["callee"].get("generics", [])):
                         shows_err = True
+                    # the same report said once, in a helper of the tool's crate that is handed the error
+                    gets_err = any("rror" in cr.types[b["locals"][(a.get("move") or a.get("copy"))["local"]]["ty"]]["s"]
+                                   for a in tt["args"] if (a.get("move") or a.get("copy")) is not None and not (a.get("move") or a.get("copy"))["proj"])
+                    for hk in (local_helpers(P, key, tt) if gets_err else ()):
+                        hcr = P.crate_of[hk]
+                        for _, ht, _, _ in P.call_sites(hk):
+                            hrp = MU.callee_names(ht)[1]
+                            if hrp in ("std::io::_print", "std::io::_eprint") or "panic" in hrp:
+                                printed = True
+                            if "fmt::rt::Argument" in hrp and any("rror" in hcr.types[g]["s"] or hcr.types[g]["k"] == "param"
+                                                                  for g in ht["callee"].get("generics", [])):
+                                shows_err = True
             rep.ob("C18.report|%s" % short, printed and shows_err,
                    "failure of %s is printed together with the error value" % short if printed and shows_err else
                    "failure of %s is not reported with its error (print=%s, error formatted=%s)" % (short, printed, shows_err), loc=loc)
@@ -305,6 +317,11 @@ def run(tier):
             for cand in [MU.callee_names(c)[0], MU.callee_names(c)[1]]:
                 ck = next((k2 for k2 in P.body if k2.startswith(key + "::{closure") and (cand == k2 or k2.endswith("::" + cand) or cand.endswith(k2))), None)
                 if ck is None:
+                    # the same helper written as a free function of the tool's crate (what it reads of the options arrives as arguments,
+                    # which the slice in main already follows)
+                    ck = next((k2 for k2 in P.body if k2.startswith("bin::") and k2 != key and "{closure" not in k2 and "<" not in k2 and
+                               cand and (k2 == "bin::" + cand or k2.endswith("::" + cand))), None)
+                if ck is None:
                     continue
                 cn, cf = closure_facts(P, ck, opt_fields)
                 callnames |= cn
@@ -398,8 +415,7 @@ def run(tier):
                     locs, consts, calls, places = MU.backward_slice(b, [a])
                     sides.append({cp_, ep_} & set(locs))
                     for c in calls:
-                        for cand in MU.callee_names(c):
-                            helpers |= {k2 for k2 in P.body if k2.startswith(key + "::{closure") and (cand == k2 or k2.endswith("::" + cand) or cand.endswith(k2))}
+                        helpers |= local_helpers(P, key, c)
                         if MU.callee_names(c)[1].endswith("Path::canonicalize") or MU.callee_names(c)[1].endswith("fs::canonicalize"):
                             by_place = True
                 # the comparison stands in front of both writers (it may itself be skipped when there is no EEPROM image to write)
@@ -422,6 +438,18 @@ def run(tier):
 
 def cr_is_generate_result(P, key, body, local):
     return P.tys(key, body["locals"][local]["ty"]).endswith("writer::GenerateResult")
+
+
+def local_helpers(P, key, term):
+    """bodies of the tool's own crate that a call in `key` runs: closures of `key`, or free functions beside it"""
+    out = set()
+    for cand in MU.callee_names(term):
+        if not cand:
+            continue
+        out |= {k2 for k2 in P.body if k2.startswith(key + "::{closure") and (cand == k2 or k2.endswith("::" + cand) or cand.endswith(k2))}
+        out |= {k2 for k2 in P.body if k2.startswith("bin::") and k2 != key and "{closure" not in k2 and "<" not in k2 and
+                (k2 == "bin::" + cand or k2.endswith("::" + cand))}
+    return out
 
 
 def closure_facts(P, ck, opt_fields):
